@@ -5,3 +5,4 @@ INVARIANT ScenarioOK
 INVARIANT BackwardOK
 INVARIANT RoundTripOK
 INVARIANT RankOK
+INVARIANT OtherBackOK
